@@ -2189,7 +2189,23 @@ pub fn c16(seed: u64, budget: u64) -> FOut {
                             ledger[i].2 -= 1;
                         }
                         None => {
-                            hits.push(("C16:item-not-pending-or-invalidated-or-over-limit".into(), ctx(&format!("item {it:?} in a {kind}; ledger {ledger:?}"))));
+                            // a datagram built after the received items were handled although it is not 'the reply'
+                            // (a TurnUndead from an active sender makes the instance renew and gossip AFTER its
+                            // custom-broadcast tail was accepted): an unknown item on the wire proves that the
+                            // acceptances of this call have happened - take them now and look again
+                            let mut found = None;
+                            if !accepted_done {
+                                do_accepts(&mut ledger);
+                                accepted_done = true;
+                                found = ledger.iter().enumerate().position(|(i, (data, _, rem))| data == it && *rem > 0 && !used.contains(&i));
+                            }
+                            match found {
+                                Some(i) => {
+                                    used.push(i);
+                                    ledger[i].2 -= 1;
+                                }
+                                None => hits.push(("C16:item-not-pending-or-invalidated-or-over-limit".into(), ctx(&format!("item {it:?} in a {kind}; ledger {ledger:?}")))),
+                            }
                         }
                     }
                 }
